@@ -256,6 +256,59 @@ def signingFields (v : SigningRec) : List Fld :=
 
 def encodeSigning (v : SigningRec) : Bytes := encodeStruct 1 (signingFields v)
 
+/-- the fee of a transaction inside `StdTx`: a repeated field 2, one entry per coin -/
+def encodeFee (cs : List Coin) : Bytes := cs.flatMap fun c => fieldKey 2 2 ++ lenPrefixed (encodeCoin c)
+
+def decodeFeeAux : Nat → Bytes → Option (List Coin × Bytes)
+  | 0, _ => none
+  | fuel + 1, 18 :: r =>
+    match decodeLenPrefixed r with
+    | some (cb, rest) =>
+      match decodeCoin cb, decodeFeeAux fuel rest with
+      | some c, some (cs, rest') => some (c :: cs, rest')
+      | _, _ => none
+    | none => none
+  | _ + 1, bs => some ([], bs)
+
+/-- an optional bytes field with a one-byte key at the head of the input -/
+def decodeOptBytes (key : Nat) : Bytes → Option (Bytes × Bytes)
+  | [] => some ([], [])
+  | k :: r =>
+    if k = key then
+      match decodeLenPrefixed r with
+      | some (b, rest) => if b.isEmpty then none else some (b, rest)
+      | none => none
+    else some ([], k :: r)
+
+/-- a transaction as it travels (`auth.StdTx`): the message and the key as their own registered encodings -/
+structure StdTxRec where
+  msg : Bytes
+  fee : List Coin
+  pk : Bytes
+  sig : Bytes
+  memo : Bytes
+  entropy : Int
+  deriving Repr, DecidableEq
+
+def stdTxTail (t : StdTxRec) : List Fld :=
+  [.bytes (encodeStruct 1 [.bytes t.pk, .bytes t.sig]), .bytes t.memo, .uint (toU64 t.entropy)]
+
+def encodeStdTxCore (t : StdTxRec) : Bytes :=
+  encodeFld 1 (.bytes t.msg) ++ (encodeFee t.fee ++ encodeStruct 3 (stdTxTail t))
+
+def encodeStdTx (pre : Bytes) (t : StdTxRec) : Bytes := pre ++ encodeStdTxCore t
+
+def decodeStdTxCore (bs : Bytes) : Option (Bytes × List Coin × List Fld) :=
+  match decodeOptBytes 10 bs with
+  | none => none
+  | some (m, r1) =>
+    match decodeFeeAux (r1.length + 1) r1 with
+    | none => none
+    | some (fee, r2) =>
+      match decodeStruct 3 [true, true, false] r2 with
+      | none => none
+      | some fs => some (m, fee, fs)
+
 /-! ### store keys of x/pos -/
 
 /-- 8-byte big-endian -/
